@@ -12,7 +12,7 @@ from . import engine
 from .engine import log
 
 VERIF = engine.VERIF
-EVID = os.path.join(VERIF, "evidence")
+EVID = os.environ.get("VERIF_EVID") or os.path.join(VERIF, "evidence")
 KNOWN = os.path.join(VERIF, "known_findings.json")
 
 
